@@ -226,6 +226,9 @@ func (e *Exec) localEnv(s *State) func(string) (Value, bool) {
 			}
 		}
 		if best == nil {
+			if pv, ok := e.params[name]; ok {
+				return pv, true
+			}
 			return Value{}, false
 		}
 		if sv, ok := e.sideCells[best]; ok {
@@ -268,6 +271,9 @@ func (e *Exec) run() {
 	for _, fv := range fn.FreeVars {
 		addParam(fv, fv.Name())
 	}
+	if fn.Signature.Recv() != nil && isPointer(fn.Signature.Recv().Type()) && len(fn.Params) > 0 {
+		e.assume("(not (= " + e.vals[fn.Params[0]].S[0] + " 0))")
+	}
 	e.params = vars
 	e.entry = s.clone()
 	// defer flags start false
@@ -292,6 +298,10 @@ func (e *Exec) run() {
 	}
 	for i, m := range e.Con.Modifies {
 		e.mods = append(e.mods, e.modEntriesSafe(env, m, e.Con.ModText[i], e.Con)...)
+	}
+	// ghost statements run at entry (after old() has been fixed to the pre-state)
+	for _, ga := range e.Con.GhostDo {
+		e.ghostAssign(s, env, ga)
 	}
 	e.cover("cover.pre", "", "true")
 
@@ -354,7 +364,7 @@ func (e *Exec) enterLoop(li *loopInfo) {
 	if li.spec.Header != "" && !strings.Contains(hdr, li.spec.Header) {
 		panic(contractError{fmt.Sprintf("%s: loop %d header drift: contract says %q, source line is %q", e.Con.RawName, li.ordinal, li.spec.Header, hdr)})
 	}
-	env := &Env{e: e, vars: e.params, st: s, old: e.entry, pkgPath: e.Con.PkgPath, lookup: e.localEnv(s)}
+	env := &Env{e: e, vars: map[string]Value{}, st: s, old: e.entry, pkgPath: e.Con.PkgPath, lookup: e.localEnv(s)}
 	for i, inv := range li.spec.Invs {
 		if !inv.activeFor(e.Prop) {
 			continue
@@ -405,7 +415,7 @@ func (e *Exec) enterLoop(li *loopInfo) {
 			e.assume("(>= " + nw + " " + old + ")")
 		}
 	}
-	env = &Env{e: e, vars: e.params, st: s, old: e.entry, pkgPath: e.Con.PkgPath, lookup: e.localEnv(s)}
+	env = &Env{e: e, vars: map[string]Value{}, st: s, old: e.entry, pkgPath: e.Con.PkgPath, lookup: e.localEnv(s)}
 	for _, inv := range li.spec.Invs {
 		if !inv.activeFor(e.Prop) {
 			continue
@@ -424,7 +434,7 @@ func (e *Exec) checkBackEdge(li *loopInfo, reach string) {
 	save := e.reach
 	e.reach = reach
 	defer func() { e.reach = save }()
-	env := &Env{e: e, vars: e.params, st: s, old: e.entry, pkgPath: e.Con.PkgPath, lookup: e.localEnv(s)}
+	env := &Env{e: e, vars: map[string]Value{}, st: s, old: e.entry, pkgPath: e.Con.PkgPath, lookup: e.localEnv(s)}
 	for i, inv := range li.spec.Invs {
 		if !inv.activeFor(e.Prop) {
 			continue
@@ -540,4 +550,27 @@ func (e *Exec) finish(vars map[string]Value) {
 		}
 		e.oblige("post", lbl, en.Text, en.Props, "", t)
 	}
+}
+
+func (e *Exec) ghostAssign(s *State, env *Env, ga *GhostAssign) {
+	g, ok := e.CS.Ghost[ga.Name]
+	if !ok {
+		panic(contractError{fmt.Sprintf("%s: ghostdo on unknown ghost variable %s", e.Con.RawName, ga.Name)})
+	}
+	cur := &Env{e: e, vars: env.vars, st: s, old: e.entry, pkgPath: env.pkgPath}
+	t := cur.resolveTypeIn(g.Ty, g.PkgPath)
+	sort := slotsOf(t)[0].Sort
+	comp := "G|" + ga.Name
+	old := e.compTerm(s, comp, sort)
+	val := e.evalSpecSafe(cur, ga.Val, e.Con, "ghostdo")
+	var nw string
+	if ga.Key != nil {
+		gm := t.Underlying().(*GhostMap)
+		k := cur.coerceKey(e.evalSpecSafe(cur, ga.Key, e.Con, "ghostdo"), gm.K)
+		nw = "(store " + old + " " + k + " " + cur.coerce(val, gm.V).S[0] + ")"
+	} else {
+		nw = cur.coerce(val, t).S[0]
+	}
+	e.frameCheck(comp, "")
+	e.setComp(s, comp, sort, nw)
 }
